@@ -1,0 +1,41 @@
+//go:build verif
+
+// Contracts for package transport, read by /verif/govc (contract-based deductive verification).
+// This file contains comments only; it adds no code to any build.
+
+package transport
+
+// ---- C15: telnet option negotiation --------------------------------------------------------
+// The negotiation parser is a three-state automaton over ctrlBuf; the contract is the one-step
+// refinement of the RFC 854 automaton written from the property statement.
+
+//@ spec isVerb(c byte) bool := c == 251 || c == 252 || c == 253 || c == 254
+//@ spec WF(cb []byte) bool := len(cb) == 0 || (len(cb) == 1 && cb[0] == 255) || (len(cb) == 2 && cb[0] == 255 && isVerb(cb[1]))
+//@ spec reply(v byte, o byte) byte := (v == 253 && o == 3) ? 251 : ((v == 253 || v == 254) ? 252 : (v == 251 ? 253 : 254))
+
+//@ func (*Telnet).handleControlCharResponse [C15]
+//@   requires WF(ctrlBuf)
+//@   modifies t.initialBuf, sock
+//@   ensures #wf result.1 == nil ==> WF(result.0)
+//@   ensures #s0-data len(ctrlBuf) == 0 && c != 255 ==> result.1 == nil && t.initialBuf === old(t.initialBuf) ++ bytes(c) && sock == old(sock) && len(result.0) == 0
+//@   ensures #s0-iac len(ctrlBuf) == 0 && c == 255 ==> result.1 == nil && t.initialBuf == old(t.initialBuf) && sock == old(sock) && result.0 === bytes(255)
+//@   ensures #s1-verb len(ctrlBuf) == 1 && isVerb(c) ==> result.1 == nil && t.initialBuf == old(t.initialBuf) && sock == old(sock) && result.0 === bytes(255, c)
+//@   ensures #s1-nonverb-returns-to-s0 len(ctrlBuf) == 1 && !isVerb(c) ==> result.1 == nil && sock == old(sock) && len(result.0) == 0
+//@   ensures #s1-nonverb-delivers-nothing-but-escaped-iac len(ctrlBuf) == 1 && !isVerb(c) && c != 255 ==> t.initialBuf == old(t.initialBuf)
+//@   ensures #s1-escaped-iac len(ctrlBuf) == 1 && c == 255 ==> t.initialBuf == old(t.initialBuf) || t.initialBuf === old(t.initialBuf) ++ bytes(255)
+//@   ensures #s2-reply-once len(ctrlBuf) == 2 && result.1 == nil ==> t.initialBuf == old(t.initialBuf) && len(result.0) == 0 && sock === old(sock) ++ bytes(255, reply(ctrlBuf[1], c), c)
+//@   ensures #s2-error len(ctrlBuf) == 2 && result.1 != nil ==> t.initialBuf == old(t.initialBuf) && sock == old(sock)
+
+//@ func (*Telnet).handleControlChars [C15]
+//@   loop 1 invariant WF(ctrlBuf)
+
+//@ func (*Telnet).Read [C15 C16]
+//@   modifies t.initialBuf
+//@   requires n >= 0
+//@   ensures #initial-buffer-once len(old(t.initialBuf)) > 0 ==> result.0 == old(t.initialBuf) && len(t.initialBuf) == 0 && result.1 == nil
+//@   ensures #no-initial len(old(t.initialBuf)) == 0 ==> t.initialBuf == old(t.initialBuf) && len(result.0) <= n
+
+//@ func (*Telnet).Write [C15 C16]
+//@   modifies sock
+//@   ensures result == nil ==> sock == old(sock) ++ b
+//@   ensures result != nil ==> sock == old(sock)
